@@ -9,6 +9,7 @@ import MxlVerif.Lemmas.SortMissing
 import MxlVerif.Lemmas.Unique
 import MxlVerif.Lemmas.PermInvariant
 import MxlVerif.Lemmas.PermArgs
+import MxlVerif.Lemmas.Reject
 namespace Mxl.C02
 open Mxl
 
@@ -196,6 +197,30 @@ theorem C02_verdict_by_graph (av : List Name) (els : List Dep) (hnd : (els.map (
 theorem C02_outcome_order_independent {c c' : Content} (hn : WFnames c)
     (hsame : SameContent c' c) : outcome (createCache c') = outcome (createCache c) :=
   outcome_perm_invariant hn hsame
+
+/-- **In neither case are numbers returned — at any entry point.**  When `_create_cache` rejects the
+    graph, initial conditions, parameter values, derived-name lists, the argument table (any flags),
+    fluxes, the named and the positional right-hand side and the stoichiometry table all fail with
+    that same error. -/
+theorem C02_rejected_everywhere {c : Content} {e : Err} (h : createCache c = .error e) :
+    getInit c = .error e ∧ getParameterValues c = .error e ∧ getClasses c = .error e ∧
+    (∀ vars t, getArgs c vars t = .error e) ∧ (∀ vars t, getFluxes c vars t = .error e) ∧
+    (∀ vars t, getRhsQ c vars t = .error e) ∧ (∀ t xs, callRhs c t xs = .error e) ∧
+    (∀ vars t, getStoich c vars t = .error e) ∧
+    (∀ vars t f, getArgsSel c vars t f = .error e) :=
+  queries_reject h
+
+/-- **The missing-dependency error at the model level**: for a well-named content in which some
+    component requires a name nothing provides, `_create_cache` (hence every query) fails with the
+    missing-dependency error listing, per offending component in declaration order, exactly the
+    required names that are neither initially available nor provided by any component. -/
+theorem C02_missing_exact_at_cache {c : Content} (hn : WFnames c)
+    (hmiss : Incomplete c.available c.deps) :
+    createCache c = .error (.missing
+      (c.deps.filterMap fun d =>
+        if ready (allAvailable c.available c.deps) d then none
+        else some (d.name, missingOf (allAvailable c.available c.deps) d))) :=
+  createCache_missing_exact hn hmiss
 
 /-! ### non-vacuity: concrete graphs meeting the hypotheses -/
 
